@@ -236,6 +236,21 @@ def search(ctx, boost=1, focus=()):
             l1, l2 = float(rng.choice([8.0, -7.5, 5.0, 12.25])), float(rng.choice([5.0, 3.0, -9.5, 6.0]))
             a, b = (np.array([0.0, l1]), np.array([l2, 0.0])) if (k // 7) % 2 == 0 else (np.array([l1, 0.0]), np.array([0.0, l2]))
             ctx.count("axis_parallel")
+        if k % 11 == 7:
+            # the corner of the stated range: one vector 50 .. 100 times longer than the other, enclosing the smallest angle
+            # (|sin| 0.05 .. 0.07), every orientation, both orders and both handednesses
+            ls_, ll_ = float(rng.uniform(1.0, 2.0)), float(rng.uniform(64.0, 100.0))
+            if (k // 11) % 3 == 0:
+                ls_, ll_ = 1.0, 100.0
+            phi_ = float(rng.uniform(0, 2 * np.pi))
+            ang_ = float(np.arcsin(rng.uniform(0.0502, 0.07))) * (1 if rng.random() < 0.5 else -1)
+            if rng.random() < 0.3:
+                ang_ = np.pi - ang_
+            a = ls_ * np.array([np.sin(phi_), np.cos(phi_)])
+            b = ll_ * np.array([np.sin(phi_ + ang_), np.cos(phi_ + ang_)])
+            if (k // 11) % 2:
+                a, b = b, a
+            ctx.count("extreme_length_ratio")
         layout = ("mgrid", "list", "list", "list2")[k % 4]
         idx, flat = gen_indices(rng, "list" if layout == "list2" else layout, tiny=True)
         if layout == "list2":
